@@ -84,7 +84,7 @@ class StepMonitor(object):
                 self.rng.publish_edge_list(s['i'], s['j'])
             if s.get('D') is not None:
                 self.D = np.array(s['D'], dtype=float)
-                self.prev_cost = float(np.sum(self.D * R))
+                self.prev_cost = float(np.sum(self.D * np.asarray(R, dtype=float)))
             if self.B is not None:
                 self.prevR = np.array(R, copy=True)
             self.conn0 = None
@@ -133,7 +133,7 @@ class StepMonitor(object):
             if not c:
                 self._set_breach('step_disconnected', 'network disconnected after swap %d' % self.swaps)
         if self.D is not None:
-            cost = float(np.sum(self.D * R))
+            cost = float(np.sum(self.D * np.asarray(R, dtype=float)))
             if cost > self.prev_cost + 1e-9 * max(1.0, abs(self.prev_cost)):
                 self._set_breach('step_cost', 'lattice cost rose %.12g -> %.12g at swap %d' % (self.prev_cost, cost, self.swaps))
             self.prev_cost = cost
@@ -222,8 +222,9 @@ def judge_c11(routine, W, p, out, mon, hookD):
             D = p.get('D')
             if D is None:
                 D = hookD if hookD is not None else G.ring_distance_matrix(n)
-            before = float(np.sum(D * W[np.ix_(ind, ind)]))
-            after = float(np.sum(D * np.asarray(Rrp)))
+            D = np.asarray(D, dtype=float)  # the cost is a real number whatever the containers are
+            before = float(np.sum(D * W[np.ix_(ind, ind)].astype(float)))
+            after = float(np.sum(D * np.asarray(Rrp, dtype=float)))
             if after > before + 1e-9 * max(1.0, abs(before)):
                 v.append(('cost_increase', 'lattice cost sum(D*R) rose from %.12g to %.12g' % (before, after)))
     if routine == 'randomize_graph_partial_und':
@@ -426,6 +427,14 @@ def gen_case(sub, routines, scn_id, connected=False, nmax=12, invalid_frac=0.0):
         W = W.astype(bool)
     elif r < 0.26:
         W = W.astype(np.float32)
+    if routine in LAT and meta.get('wkind') == 'int' and not expect_reject and rnd.random() < 0.05:
+        # weights AND distances held in 8-bit integers: the lattice condition is then evaluated in int8 (products up to 135 wrap)
+        W = W.astype(np.int8)
+        D8 = np.array([[rnd.randint(0, 15) for _ in range(n)] for _ in range(n)])
+        if not directed:
+            D8 = np.maximum(D8, D8.T)
+        params['D'] = enc(D8.astype(np.int8))
+        meta['narrow8'] = True
     if expect_reject == 'asymmetric' and np.allclose(W, W.T):
         expect_reject = None  # the container type rounded the asymmetry away
     if expect_reject == 'disconnected' and G.connected_und(W):
